@@ -15,14 +15,14 @@ Ev == TLog[l]
 IsEvent(name) == l <= Len(TLog) /\ Ev.a = name /\ l' = l + 1
 
 TraceInit ==
-    /\ l = 1 /\ max = 1 /\ path = "" /\ kinds = <<>> /\ pc = <<>> /\ counter = 0 /\ run = <<>> /\ chk = <<>> /\ mode = <<>>
+    /\ l = 1 /\ max = 1 /\ path = "" /\ kinds = <<>> /\ pc = <<>> /\ wleft = <<>> /\ work = <<>> /\ counter = 0 /\ run = <<>> /\ chk = <<>> /\ mode = <<>>
     /\ quiesced = FALSE /\ free = 0 /\ hist = <<>>
 
 TNew ==
     /\ IsEvent("New")
     /\ max' = Ev.in.max /\ path' = Ev.in.path /\ kinds' = Ev.in.kinds
     /\ LET T == DOMAIN Ev.in.kinds IN
-        /\ pc' = [t \in T |-> "idle"] /\ run' = [t \in T |-> 0] /\ chk' = [t \in T |-> "none"] /\ mode' = [t \in T |-> "none"]
+        /\ pc' = [t \in T |-> "idle"] /\ wleft' = [t \in T |-> Ev.in.kinds[t].w] /\ work' = [t \in T |-> 0] /\ run' = [t \in T |-> 0] /\ chk' = [t \in T |-> "none"] /\ mode' = [t \in T |-> "none"]
     /\ counter' = 0 /\ quiesced' = FALSE /\ free' = 0
     /\ hist' = <<[a |-> "New", in |-> Ev.in, out |-> Ev.out, st |-> Ev.st]>>
 
@@ -31,26 +31,30 @@ TSkip    == IsEvent("Skip") /\ Skip(Ev.in.t)
 TCheck   == IsEvent("Check") /\ Check(Ev.in.t) /\ hist'[1].out.ok = Ev.out.ok
 TStart   == IsEvent("Start") /\ Start(Ev.in.t)
 TEnd     == IsEvent("End") /\ End(Ev.in.t)
+TWorkB   == IsEvent("WorkBegin") /\ WorkBegin(Ev.in.t)
+TWorkE   == IsEvent("WorkEnd") /\ WorkEnd(Ev.in.t)
 TQuiesce ==
     /\ IsEvent("Quiesce")
     /\ \A t \in DOMAIN pc : pc[t] = "done"
     /\ quiesced' = TRUE /\ free' = Ev.out.free /\ Ev.out.free = max - counter
     /\ hist' = <<[a |-> "Quiesce", in |-> Ev.in, out |-> Ev.out, st |-> Ev.st]>>
-    /\ UNCHANGED <<max, path, kinds, pc, counter, run, chk, mode>>
-TraceSpec == TraceInit /\ [][TNew \/ TSkip \/ TCheck \/ TStart \/ TEnd \/ TQuiesce]_tvars
+    /\ UNCHANGED <<max, path, kinds, pc, wleft, work, counter, run, chk, mode>>
+TraceSpec == TraceInit /\ [][TNew \/ TSkip \/ TCheck \/ TStart \/ TEnd \/ TWorkB \/ TWorkE \/ TQuiesce]_tvars
 
 \* observation only
 Obs(a) == hist' = <<[a |-> a, in |-> Ev.in, out |-> Ev.out, st |-> Ev.st]>>
-Same == UNCHANGED <<max, path, kinds, pc, quiesced, free>>
-TSkipObs    == IsEvent("Skip") /\ Same /\ UNCHANGED <<counter, run, chk, mode>> /\ Obs("Skip")
-TCheckObs   == IsEvent("Check") /\ DoCheck(Ev.in.t, Ev.out.ok) /\ Same /\ Obs("Check")
-TStartObs   == IsEvent("Start") /\ DoStart(Ev.in.t) /\ Same /\ Obs("Start")
-TEndObs     == IsEvent("End") /\ DoEnd(Ev.in.t) /\ Same /\ Obs("End")
+Same == UNCHANGED <<max, path, kinds, pc, wleft, quiesced, free>>
+TSkipObs    == IsEvent("Skip") /\ Same /\ UNCHANGED <<work, counter, run, chk, mode>> /\ Obs("Skip")
+TCheckObs   == IsEvent("Check") /\ DoCheck(Ev.in.t, Ev.out.ok) /\ Same /\ UNCHANGED work /\ Obs("Check")
+TStartObs   == IsEvent("Start") /\ DoStart(Ev.in.t) /\ Same /\ UNCHANGED work /\ Obs("Start")
+TEndObs     == IsEvent("End") /\ DoEnd(Ev.in.t) /\ Same /\ UNCHANGED work /\ Obs("End")
+TWorkBObs   == IsEvent("WorkBegin") /\ DoWorkBegin(Ev.in.t) /\ Same /\ UNCHANGED <<counter, run, chk, mode>> /\ Obs("WorkBegin")
+TWorkEObs   == IsEvent("WorkEnd") /\ DoWorkEnd(Ev.in.t) /\ Same /\ UNCHANGED <<counter, run, chk, mode>> /\ Obs("WorkEnd")
 TQuiesceObs ==
     /\ IsEvent("Quiesce")
     /\ quiesced' = TRUE /\ free' = Ev.out.free
-    /\ UNCHANGED <<max, path, kinds, pc, counter, run, chk, mode>> /\ Obs("Quiesce")
-TraceSpecObs == TraceInit /\ [][TNew \/ TSkipObs \/ TCheckObs \/ TStartObs \/ TEndObs \/ TQuiesceObs]_tvars
+    /\ UNCHANGED <<max, path, kinds, pc, wleft, work, counter, run, chk, mode>> /\ Obs("Quiesce")
+TraceSpecObs == TraceInit /\ [][TNew \/ TSkipObs \/ TCheckObs \/ TStartObs \/ TEndObs \/ TWorkBObs \/ TWorkEObs \/ TQuiesceObs]_tvars
 
 HighWater == TLCSet(1, IF l > TLCGet(1) THEN l ELSE TLCGet(1))
 Accepted  == IF TLCGet(1) = Len(TLog) + 1 THEN TRUE ELSE PrintT("@@HW " \o ToString(TLCGet(1))) /\ FALSE
